@@ -40,7 +40,31 @@ def mac_gate(eng, ret, idx=0):
     return out
 
 
+def weak_mac_gate(eng, ret, idx=0, jidx=None):
+    """facts on the Ok alternative that compare (any part of) a value depending on the share's MAC J with a value
+    computed from a Strobe transcript: the weakest form of `the MAC was checked` (used where the exact MAC
+    construction is not the property's concern).  Returns the list of fact terms."""
+    fs = Q.facts_of_variant(eng, ret, idx)
+    if fs is None:
+        return None
+    out = []
+    for t, rel, v in fs:
+        if not Q.contains(t, lambda z: z.op in ("owf", "sop")):
+            continue
+        ps = Q.params(Q.leaves(t))
+        j = jidx if jidx is not None else fidx_cache.get("J")
+        jdep = any((j is not None and p.endswith(".%d" % j)) or p == "J" for p in ps)
+        tr_dep = Q.contains(t, lambda z: z.op == "sop" and z.args[1] in ("ad", "key"))
+        if jdep and tr_dep:
+            out.append(t)
+    return out
+
+
+fidx_cache = {}
+
+
 def run(ctx):
+    fidx_cache["J"] = fidx(ctx, SH, "J")
     iA, iM, iR, iT = (fidx(ctx, C, n) for n in ("A", "M", "R", "T"))
     sA, sS, sC, sD, sJ = (fidx(ctx, SH, n) for n in ("A", "S", "C", "D", "J"))
 
